@@ -64,7 +64,13 @@ def c18():
     return [includes.ReadNewFile()]
 
 
+def c01():
+    from harness import lookup
+    return [lookup.NameLookup()]
+
+
 REGISTRY = {
+    'C01': dict(harnesses=c01, run=_runner('C01', c01)),
     'C18': dict(harnesses=c18, run=_runner('C18', c18)),
     'C19': dict(harnesses=c19, run=_runner('C19', c19)),
     'C05': dict(harnesses=c05, run=_runner('C05', c05)),
